@@ -216,3 +216,19 @@ def pencil_energies(c, k, p=None):
     ev = np.linalg.eigvals(z)
     en = np.sort(np.log(np.abs(ev)))
     return en, float(s[k - 1] / s[0]), s
+
+
+def pencil_energies_set(cs, k, p=None):
+    """the same for several sequences analysed at once (Hankel blocks stacked on top of each other)."""
+    cs = [np.asarray(c, dtype=float) for c in cs]
+    n = len(cs[0])
+    if p is None:
+        p = max(n // 2, k)
+    L = n - p
+    H = np.concatenate([np.array([[c[i + j] for j in range(p + 1)] for i in range(L)]) for c in cs], axis=0)
+    Y1 = H[:, :p]
+    Y2 = H[:, 1:]
+    u, s, vh = np.linalg.svd(Y2, full_matrices=False)
+    z = np.diag(1.0 / s[:k]) @ u[:, :k].T @ Y1 @ vh.T[:, :k]
+    en = np.sort(np.log(np.abs(np.linalg.eigvals(z))))
+    return en, float(s[k - 1] / s[0]), s
